@@ -16,6 +16,28 @@ var debugDump = false
 // TestDebug replays one pipeline (C04_DEBUG="state:prim,prim,...") and dumps
 // what was recorded. Skipped unless the variable is set.
 func TestDebug(t *testing.T) {
+	if o := os.Getenv("C04_DEBUG_OPS"); o != "" {
+		var choices []int
+		names := strings.Split(o, ",")
+		for _, n := range names {
+			for i, q := range runnerOps {
+				if q == n {
+					choices = append(choices, i)
+				}
+			}
+		}
+		rep := report.New("C04", "exploration")
+		e := &explore.Explorer{Scenario: "debug", Bound: 0, Body: func(r *explore.Run) { runnerBody(r, rep, "debug", len(names)) }}
+		run, fail := e.Replay(choices)
+		for _, l := range run.Trace {
+			fmt.Println(l)
+		}
+		if fail != nil {
+			fmt.Printf("VIOLATION %s: %s\n", fail.Signature, fail.Message)
+		}
+		stopServers()
+		return
+	}
 	spec := os.Getenv("C04_DEBUG")
 	if spec == "" {
 		t.Skip("C04_DEBUG not set")
